@@ -29,7 +29,7 @@ VARIABLES st, x, pos
 vars == <<st, x, pos>>
 Init == st = "tree" /\ x = [k |-> "nil"] /\ pos = ""
 Next == \/ st = "tree" /\ \E t \in Trees(Depth) : t.k \in {"arr", "obj"} /\ x' = t /\ st' = "pos" /\ pos' = pos
-        \/ st = "pos" /\ \E p \in {"top", "field", "skipped"} : pos' = p /\ st' = "done" /\ x' = x
+        \/ st = "pos" /\ \E p \in {"top", "field", "skipped", "re0", "re1", "re4"} : pos' = p /\ st' = "done" /\ x' = x
 Spec == Init /\ [][Next]_vars
 Done == st = "done"
 
@@ -53,7 +53,15 @@ Skippable == Done /\ pos = "skipped" =>
    d.ok /\ d.v[1].mag = <<7>> /\ d.v[2] = <<122>>
 MatcherSound == Done => EncMatches(Cfg0, Bake(Holder, ""), HV, Encode(Cfg0, Bake(Holder, ""), HV))
 
-CaseJson == IF pos = "top" THEN ToJson([ev |-> "codec", T |-> JsT, v |-> x, u |-> <<pos>>])
+\* re0 / re1 / re4: the holder is decoded into a variable whose JSON field already holds an empty / shorter / longer container (C10)
+Five == [k |-> "int", i |-> [neg |-> FALSE, mag |-> <<5>>]]
+PriorJ == IF x.k = "arr"
+            THEN (CASE pos = "re0" -> Arr(<<>>, FALSE) [] pos = "re1" -> Arr(<<Five>>, FALSE) [] OTHER -> Arr(<<Five, Five, Five, Five>>, FALSE))
+            ELSE (CASE pos = "re0" -> Obj(<<>>, FALSE) [] pos = "re1" -> Obj(<<<<<<97>>, Five>>>>, FALSE)
+                    [] OTHER -> Obj(<<<<<<>>, Five>>, <<<<97>>, Five>>, <<<<98>>, Five>>, <<<<99>>, Five>>>>, FALSE))
+CaseJson == IF pos \in {"re0", "re1", "re4"}
+              THEN ToJson([ev |-> "evolve", S |-> Holder, S2 |-> Holder, v |-> HV, prior |-> <<[neg |-> FALSE, mag |-> <<1>>], PriorJ, <<112>>>>, u |-> <<pos>>])
+            ELSE IF pos = "top" THEN ToJson([ev |-> "codec", T |-> JsT, v |-> x, u |-> <<pos>>])
             ELSE IF pos = "field" THEN ToJson([ev |-> "codec", T |-> Holder, v |-> HV, u |-> <<pos>>])
             ELSE ToJson([ev |-> "evolve", S |-> Holder, S2 |-> Lacking, v |-> HV, prior |-> <<[neg |-> FALSE, mag |-> <<1>>], <<112>>>>, u |-> <<pos>>])
 EmitCase == (Done /\ Emit) => PrintT(<<"CASE", CaseJson>>)
